@@ -178,6 +178,36 @@ Proof.
     rewrite c_unq_q. assumption.
 Qed.
 
+(* a comma-free text is untouched by the comma stripping of the reader *)
+Lemma c_remove_none : forall c s, no_char c s = true -> remove_char c s = s.
+Proof.
+  intros c s. induction s as [|b s IH]; intro H; [reflexivity|].
+  cbn [no_char] in H. apply andb_true_iff in H. destruct H as [H1 H2]. apply negb_true_iff in H1.
+  cbn [remove_char]. rewrite H1, (IH H2). reflexivity.
+Qed.
+
+Lemma c_txt_simple : forall s, txt s = true -> negb (String.eqb s "") = true ->
+  negb (String.eqb (py_strip (remove_char "," s)) "") = true.
+Proof.
+  intros s H Hne. unfold txt in H. c_split.
+  match goal with H : no_char "," s = true |- _ => rewrite (c_remove_none _ _ H) end.
+  match goal with H : String.eqb (py_strip s) s = true |- _ => apply String.eqb_eq in H; rewrite H end.
+  exact Hne.
+Qed.
+
+(* the value of a noise slot is kept by the reader *)
+Lemma c_noise_simple : forall v, noise_val v = true -> negb (String.eqb (py_strip (remove_char "," (unq v))) "") = true.
+Proof.
+  intros v H. unfold noise_val in H. apply orb_true_iff in H. destruct H as [H|H].
+  - c_split. destruct v as [|c r]; [discriminate|].
+    match goal with H : negb (prefixb dq (String c r)) = true |- _ => unfold dq in H; cbn [prefixb] in H; rewrite andb_true_r in H;
+      apply negb_true_iff in H; rewrite Ascii.eqb_sym in H end.
+    cbn [unq]. match goal with H : Ascii.eqb c DQ = false |- _ => rewrite H end. apply c_txt_simple; assumption.
+  - remember (substring 1 (String.length v - 2) v) as u eqn:Eu. clear Eu. c_split.
+    match goal with H : String.eqb v (q u) = true |- _ => apply String.eqb_eq in H; subst v end.
+    rewrite c_unq_q. apply c_txt_simple; assumption.
+Qed.
+
 Definition c_noise_ok (l : list slot) : bool :=
   forallb (fun s => match s with SNoise k v => noise_key k && noise_val v | STag _ => true end) l.
 
@@ -226,7 +256,7 @@ Proof.
   intros ws f l. induction l as [|s r IH]; intros Hn Hf; [reflexivity|].
   rewrite items_of_cons, forallb_app. unfold c_noise_ok in Hn. cbn [forallb] in Hn. apply andb_true_iff in Hn. destruct Hn as [Hs Hr].
   rewrite (IH Hr Hf), andb_true_r. destruct s as [k v|t].
-  - apply andb_true_iff in Hs. destruct Hs as [_ Hv]. cbn [forallb item_simple]. rewrite (c_noise_unq v Hv). reflexivity.
+  - apply andb_true_iff in Hs. destruct Hs as [_ Hv]. cbn [forallb item_simple]. rewrite (c_noise_simple v Hv). reflexivity.
   - destruct (f t) as [it|] eqn:E; [|reflexivity]. cbn [forallb]. rewrite (Hf t it E). reflexivity.
 Qed.
 
@@ -255,12 +285,13 @@ Proof.
   - destruct (sc_stereos c); reflexivity.
 Qed.
 
-Lemma c_class_item_simple : forall c t it, class_item c t = Some it -> item_simple it = true.
+Lemma c_class_item_simple : forall c, vtxt (sc_doc c) = true -> forall t it, class_item c t = Some it -> item_simple it = true.
 Proof.
-  intros c t it H. destruct t; cbn [class_item] in H; try discriminate H.
+  intros c Hdoc t it H. destruct t; cbn [class_item] in H; try discriminate H.
   - unfold flag_field in H. destruct (sc_abstract c); [|discriminate H]. injection H as H. subst it. reflexivity.
   - unfold text_field in H. destruct (String.eqb (sc_doc c) "") eqn:E; [discriminate H|]. injection H as H. subst it.
-    cbn [item_simple]. rewrite c_unq_q, E. reflexivity.
+    cbn [item_simple]. rewrite c_unq_q. unfold vtxt in Hdoc. c_split.
+    match goal with H : (String.eqb (sc_doc c) "" || _) = true |- _ => rewrite E in H; exact H end.
   - destruct (sc_members c); [discriminate H|]. injection H as H. subst it. reflexivity.
   - destruct (sc_stereos c); [discriminate H|]. injection H as H. subst it. reflexivity.
 Qed.
@@ -678,7 +709,7 @@ Proof.
   unfold parse_class. rewrite HP. cbn [bind].
   unfold tree_of_class. rewrite top_explicit.
   rewrite body_explicit;
-    [|apply c_items_simple; [exact Hn|apply c_class_item_simple]|rewrite entry_keys_ws; exact Hk|rewrite entry_keys_ws; exact Hch].
+    [|apply c_items_simple; [exact Hn|apply c_class_item_simple; assumption]|rewrite entry_keys_ws; exact Hk|rewrite entry_keys_ws; exact Hch].
   rewrite (c_class_kids S c Hc).
   rewrite !c_typed_children_eq, !c_over_top.
   (* (2) operations *)
